@@ -16,7 +16,7 @@
 (* class hold the very same objects as keys, tables of different classes hold different objects   *)
 (* (of any type) denoting the same keys.  Classes are enumerated up to renaming (restricted      *)
 (* growth), tables without keys are in class 0.                                                   *)
-EXTENDS Perdictable, Json
+EXTENDS PerdictableSess, Json
 CONSTANTS Sizes     \* set of <<n, K, nk, cache, values>>: inputs, keys, key columns, enumerate cached values /
                     \* expiries ("yes"/"no"; "scalar": one expiry value for all rows), values: "distinct" | "same" (every cell, scalar and default is the same
                     \* value: calls collide, bag counts matter) | "pairs" (the previously computed values are 2-tuples)
@@ -167,6 +167,15 @@ ScalarsGiveF == Fresh /\ AllScalar(C) => /\ RunOutcomes(C, NK, TRUE) = {[kind |-
 CallsPlusKept == Fresh => Len(RunCalls(C, NK)) + Cardinality({k \in JoinKeys(C) : CachedPast(C, k)}) = Cardinality(JoinKeys(C))
 OnlyPastIsKept == Fresh => \A k \in JoinKeys(C) : CachedPast(C, k) <=> (k \in Keys /\ (cache[k] = "past" \/ (cache[k] = "absent" /\ sexp = "past")))
 MechanismIsLaw == Fresh => MechJoin(C) = JoinAsMap(C)
+\* the optional parameters of perdictable are not inputs: whatever output_is_input / if_none, the outcomes are those of the default call;
+\* with include_inputs the same rows in the same order, each carrying its key's values in addition
+OptionsAreNotInputs == Fresh => \A n \in 1..Len(OptSeq) : LET op == OptSeq[n] IN
+                          /\ InOptDomain(op)
+                          /\ ~op.inc => RunOutcomesOpt(C, NK, TRUE, op) = RunOutcomes(C, NK, TRUE)
+                          /\ (op.inc /\ ~AllScalar(C) /\ JoinKeys(C) # {}) =>
+                                \A x \in RunOutcomesOpt(C, NK, TRUE, op) : \E y \in RunOutcomes(C, NK, TRUE) :
+                                    /\ Len(x.rows) = Len(y.rows)
+                                    /\ \A m \in 1..Len(x.rows) : x.rows[m].key = y.rows[m].key /\ x.rows[m].v = y.rows[m].v /\ x.rows[m].vals = Args(C, x.rows[m].key)
 \* the rows, their order, their values and the calls are those of the same call with every key spelt by one object everywhere
 SpellingIsNotKey == Fresh => /\ WellSpelled(C)
                              /\ JoinKeys(C) = JoinKeys(Plain(C))
@@ -211,6 +220,9 @@ Case(c) == [c |-> CfgJson(c), size |-> size,
             \* what is accepted when `on` is rendered in alphabetical order of the column names / otherwise
             run |-> [alpha |-> SetToSeq(RunOutcomes(c, NK, TRUE)), other |-> SetToSeq(RunOutcomes(c, NK, FALSE))],
             join |-> [alpha |-> SetToSeq(JoinOutcomes(c, NK, TRUE)), other |-> SetToSeq(JoinOutcomes(c, NK, FALSE))],
+            \* the same with include_inputs = TRUE (the other optional parameters are not read by the law: OptionsAreNotInputs);
+            \* printed for the sizes of at most two inputs
+            run_inc |-> IF size[1] <= 2 THEN SetToSeq(RunOutcomesOpt(c, NK, TRUE, [DefaultOpts EXCEPT !.inc = TRUE])) ELSE <<>>,
             calls |-> RunCalls(c, NK),
             nrows |-> Cardinality(JoinKeys(c)), nkept |-> Cardinality({k \in JoinKeys(c) : CachedPast(c, k)})]
 Gen == /\ phase = "new"
